@@ -587,18 +587,28 @@ func (x *Exec) sprint(args []Value, ln bool) Str {
 	return Str{out}
 }
 
-func (x *Exec) sprintf(format Str, args []Value) Str {
-	f, ok := format.concrete()
-	if !ok {
-		x.engineErr("symbolic format string")
+// fmtByte decides a (possibly symbolic) byte of a format string against the characters that matter to fmt.
+func (x *Exec) fmtByte(t *Term, candidates string) (byte, bool) {
+	if t.op == OpConst {
+		return byte(t.k), true
 	}
+	for i := 0; i < len(candidates); i++ {
+		if x.c.Branch(x.c.st.Eq(t, x.c.st.Const(8, uint64(candidates[i])))) {
+			return candidates[i], true
+		}
+	}
+	return 0, false
+}
+
+func (x *Exec) sprintf(format Str, args []Value) Str {
 	st := x.c.st
+	f := format.b
 	var out []*Term
 	ai := 0
 	for i := 0; i < len(f); i++ {
-		c := f[i]
-		if c != '%' {
-			out = append(out, st.Const(8, uint64(c)))
+		c, known := x.fmtByte(f[i], "%")
+		if !known || c != '%' {
+			out = append(out, f[i])
 			continue
 		}
 		i++
@@ -606,37 +616,64 @@ func (x *Exec) sprintf(format Str, args []Value) Str {
 			out = append(out, x.cstr("%!(NOVERB)").b...)
 			break
 		}
-		if f[i] == '%' {
+		var minus, plus, zero bool
+		width := 0
+		var verb byte
+		verbKnown := false
+		stage := 0 // 0 flags, 1 width
+		for ; i < len(f); i++ {
+			b, ok := x.fmtByte(f[i], "%svwdqx-+0123456789 #")
+			if !ok {
+				verb, verbKnown = 0, false
+				break
+			}
+			if stage == 0 {
+				switch b {
+				case '-':
+					minus = true
+					continue
+				case '+':
+					plus = true
+					continue
+				case '0':
+					zero = true
+					continue
+				case ' ', '#':
+					continue
+				}
+				stage = 1
+			}
+			if b >= '0' && b <= '9' {
+				width = width*10 + int(b-'0')
+				continue
+			}
+			verb, verbKnown = b, true
+			break
+		}
+		if i >= len(f) {
+			out = append(out, x.cstr("%!(NOVERB)").b...)
+			break
+		}
+		if verbKnown && verb == '%' {
 			out = append(out, st.Const(8, '%'))
 			continue
 		}
-		var minus, plus, zero bool
-		for ; i < len(f); i++ {
-			switch f[i] {
-			case '-':
-				minus = true
-				continue
-			case '+':
-				plus = true
-				continue
-			case '0':
-				zero = true
-				continue
-			}
-			break
-		}
-		width := 0
-		for ; i < len(f) && f[i] >= '0' && f[i] <= '9'; i++ {
-			width = width*10 + int(f[i]-'0')
-		}
-		verb := f[i]
 		if ai >= len(args) {
-			out = append(out, x.cstr("%!"+string(verb)+"(MISSING)").b...)
+			out = append(out, x.cstr("%!").b...)
+			out = append(out, f[i])
+			out = append(out, x.cstr("(MISSING)").b...)
 			continue
 		}
 		arg := args[ai]
 		ai++
 		var body []*Term
+		if !verbKnown {
+			// a verb fmt does not know: "%!c(type=value)"; the exact rendering of the operand is not modelled
+			body = append(x.cstr("%!").b, f[i])
+			body = append(body, x.cstr("(BADVERB)").b...)
+			out = append(out, body...)
+			continue
+		}
 		switch verb {
 		case 's', 'v', 'w':
 			vb := verb
@@ -903,5 +940,43 @@ func init() {
 	intrinsics["path/filepath.IsAbs"] = func(x *Exec, a []Value) Value {
 		p := a[0].(Str)
 		return x.c.st.Bool(len(p.b) > 0 && x.c.Branch(x.c.st.Eq(p.b[0], x.c.st.Const(8, '/'))))
+	}
+}
+
+func init() {
+	indexAny := func(x *Exec, s, chars Str) int {
+		for i, b := range s.b {
+			for _, c := range chars.b {
+				if x.c.Branch(x.c.st.Eq(b, c)) {
+					return i
+				}
+			}
+		}
+		return -1
+	}
+	intrinsics["strings.IndexAny"] = func(x *Exec, a []Value) Value { return x.intConst(int64(indexAny(x, a[0].(Str), a[1].(Str)))) }
+	intrinsics["strings.ContainsAny"] = func(x *Exec, a []Value) Value {
+		return x.c.st.Bool(indexAny(x, a[0].(Str), a[1].(Str)) >= 0)
+	}
+	intrinsics["strings.ContainsRune"] = func(x *Exec, a []Value) Value {
+		r := a[1].(*Term)
+		if r.op != OpConst || r.k >= 0x80 {
+			x.engineErr("ContainsRune with symbolic or non-ASCII rune")
+		}
+		return x.c.st.Bool(indexAny(x, a[0].(Str), Str{[]*Term{x.c.st.Const(8, r.k)}}) >= 0)
+	}
+	intrinsics["strings.HasPrefix"] = func(x *Exec, a []Value) Value {
+		s, p := a[0].(Str), a[1].(Str)
+		if len(p.b) > len(s.b) {
+			return x.c.st.False
+		}
+		return x.eqVal(Str{s.b[:len(p.b)]}, p)
+	}
+	intrinsics["strings.HasSuffix"] = func(x *Exec, a []Value) Value {
+		s, p := a[0].(Str), a[1].(Str)
+		if len(p.b) > len(s.b) {
+			return x.c.st.False
+		}
+		return x.eqVal(Str{s.b[len(s.b)-len(p.b):]}, p)
 	}
 }
